@@ -60,7 +60,7 @@ PROPS = {
         witness=[dict(append_to='tonic/src/codec/compression.rs', module='replay/compression_witness.rs', crate='tonic', filter='verif_witness_compression', features=['--features', 'gzip,deflate,zstd']), dict(append_to='tonic/src/codec/decode.rs', module='replay/decode_witness.rs', crate='tonic', filter='verif_witness_decode', features=['--features', 'gzip,deflate,zstd'])],
         units=['compression', 'decode', 'encode'], kani=['cfg_is_enabled', 'cfg_is_empty', 'cfg_enable', 'cfg_pop'], level='proof',
         not_covered=[
-            'EnabledCompressionEncodings::{enable,pop,is_enabled,is_empty} use iterator adapters Verus rejects: their contracts are discharged by the complete Kani harnesses kani::cfg_* on the real code (all slot states x all encodings) and linked in the Verus units as callee contracts; into_accept_encoding_header_value is intractable for CBMC (46 GB) and stays an assumed contract (A-tonic-cfg-01)',
+            'EnabledCompressionEncodings::{enable,pop,is_enabled,is_empty} use iterator adapters Verus rejects: their contracts are discharged by the complete Kani harnesses kani::cfg_* on the real code (all slot states x all encodings) and linked in the Verus units as callee contracts; into_accept_encoding_header_value (intractable for CBMC: 46 GB) is proved in the Verus unit with `self.inner.into_iter().flatten()` routed through an assumed std contract (A-core-21: the Some entries in slot order)',
             'server/client plumbing that passes the right one of the two configured sets (send vs accept) into these functions (server::Grpc, client::Grpc glue) is not yet under contract',
             'completeness of the response-encoding picker (an offered and enabled encoding IS chosen) is not demanded by the statement and not proved (string-literal match gives arm=>equal only)',
             'str::split / str::trim semantics are the uninterpreted comma_tokens (A-std-split-01)',
